@@ -311,16 +311,32 @@ KEY_TUPLE_WIDEN = "venom-tuple-return-widening"
 def part_widening(ctx, cfgs):
     """a value of a NARROWER compatible type returned / assigned as a WIDER type (different memory stride of the
     elements) must still be emitted canonically: state variable, internal-call result, internal tuple result, memory"""
+    # fixed scenarios + generated (narrow, wider) pairs
+    r = ctx.rng("widen")
+    scen = list(X.WIDEN)
+    tries = 0
+    while len(scen) < len(X.WIDEN) + (6 if ctx.tier == "quick" else 30) and tries < 400:
+        tries += 1
+        t = A.gen_type(r, r.randint(1, 3), budget=900)
+        if A.has_struct(t) or not A.is_dynamic(t):
+            continue
+        w = A.widen(r, t)
+        if w == t:
+            continue
+        d = A.Decls()
+        nv, wv = d.vy(t), d.vy(w)
+        scen.append((t, nv, wv, A.gen_value(r, t, r.choice(["rand", "max"])), d.text()))
     exprs = []
-    for t, _, _, v in X.WIDEN:
+    for t, _, _, v, *_d in scen:
         exprs.append(f"pack [enc (TTuple [{A.coq_ty(t)}]) (VList [{A.coq_val(t, v)}]); "
                      f"enc (TTuple [{A.coq_ty(t)}; TUInt 256]) (VList [{A.coq_val(t, v)}; VInt 5])]")
     outs = A.coq_strings(exprs, "c06widen", imports=A.IMPORTS + X.PACK_DEF, shard=10)
     items = []
-    for idx, ((t, narrow, wide, v), o) in enumerate(zip(X.WIDEN, outs)):
+    for idx, ((t, narrow, wide, v, *dcl), o) in enumerate(zip(scen, outs)):
         e1, e2 = X.unpack(o)
         for kind in ("storage", "internal", "internal_tuple", "memory"):
-            items.append((idx, kind, X.widen_source(kind, narrow, wide), e1, e2 if kind == "internal_tuple" else e1))
+            items.append((idx, kind, (dcl[0] if dcl else "") + X.widen_source(kind, narrow, wide), e1,
+                          e2 if kind == "internal_tuple" else e1))
     jobs = [(cfg, items) for cfg in cfgs]
     with ProcessPoolExecutor(max_workers=4) as ex:
         results = list(ex.map(X.run_widen_config, jobs))
@@ -331,7 +347,7 @@ def part_widening(ctx, cfgs):
             report(ctx, "correspondence-broken", f"widening harness could not run: {res['error'][:200]}",
                    {"config": cfg.name, "error": res["error"]}, "widen-harness-error")
         for m in res["mismatch"]:
-            t, narrow, wide, v = X.WIDEN[m["idx"]]
+            t, narrow, wide, v = scen[m["idx"]][:4]
             key = None
             if cfg.venom and m["kind"] == "storage":
                 key = KEY_STORAGE_WIDEN
